@@ -6,19 +6,17 @@
     its fuel answers [OutOfFuel]; the fuel of every loop is [nav_fuel doc] = number of rows + 1.
     [DocWf doc] (Proofs/XPathNav.v) is the tree invariant of the table; decidable: [doc_wf_b].
     [expr_total e]: every number literal is accepted by Rust's f64 parser (guaranteed by the
-    expression grammar) and [substring] is not called.
+    expression grammar; the evaluator unwraps the parse).
 
-    Known findings:
-    - D30 [substring()]: byte offsets and unchecked [usize] arithmetic in the scalar library (C09).
-    - D18/D21 (dom): processing instructions have order key 0 and siblings are looked up by key, so
-      [DocWf] fails (equal keys in one child list) and the sibling axes can cycle. *)
+    Repaired findings that used to refute these statements: D22 (parent unwrap), D23 ($v), D24
+    (processing-instruction('x')), D25 (id()), the absolute path at a namespace node, D30
+    (substring, scalar library), D18/D21 (dom: PIs with key 0 made the sibling axes cycle).  None
+    is left: the theorems hold for every well-formed table. *)
 From Coq Require Import List NArith Bool.
 From XmlRs Require Import Base.CPred Model.XPathAst Model.XDoc Model.XDocCheck Model.XPathEval.
 From XmlRs Require Import Proofs.XPathNav Proofs.XPathAstPred Proofs.XPathTotal Proofs.XPathDocCheck
   Proofs.XPathCanon Proofs.XPathExamples Proofs.XPathWitness.
 Import ListNotations.
-
-Definition Known06_substring (e : expr) : bool := negb (ok_or any_axis any_str not_substring e).
 
 (** Evaluation never panics and never exhausts the navigation fuel: for every well-formed table,
     every expression, every context node of the table and every context -- including unsupported
@@ -56,21 +54,21 @@ Proof. intros doc n Hwf. exact (string_value_ok doc Hwf n). Qed.
 Theorem C06_doc_wf_decidable : forall doc : xdoc, doc_wf_b doc = true -> DocWf doc.
 Proof. exact doc_wf_b_sound. Qed.
 
-(** Full statements without the side conditions are false on the faithful model: *)
-Theorem C06_no_panic_refuted_substring :
-  exists (doc : xdoc) (e : expr), DocWf doc /\ fst (query doc e ctx_default) = Panic /\ Known06_substring e = true.
-Proof.
-  exists ex_doc, pi_doc_e3. destruct substring_panics as [H1 H2].
-  split; [exact (inv_wf ex_doc ex_doc_inv)|]. split; [exact H1|vm_compute; reflexivity].
-Qed.
-
-Theorem C06_navigation_refuted_equal_keys :
-  exists (doc : xdoc) (e : expr), doc_wf_b doc = false /\ fst (query doc e ctx_default) = OutOfFuel.
-Proof. exists pi_doc, pi_doc_hang. split; [exact pi_doc_not_wf|exact pi_sibling_loop_diverges]. Qed.
+(** unsupported constructs and steps selecting nothing: errors or empty node-sets *)
+Example C06_unsupported_examples :
+  fst (query pi_doc pi_doc_e2 ctx_default) = Err (XErrNotFoundVariable [118]%N) /\
+  fst (query pi_doc pi_doc_e6 ctx_default) = Ok (XNodes []) /\
+  fst (query dtd_doc dtd_doc_e2 ctx_default) = Err (XErrNotFoundFunction [105; 100]%N) /\
+  fst (query ex_doc pi_doc_e7 ctx_default) = Ok (XNodes []).
+Proof. destruct unsupported_examples as (H1&H2&H3&H4&_). repeat split; assumption. Qed.
 
 (** the hypotheses are satisfiable *)
-Example C06_example : DocWf ex_doc /\ expr_total ex_doc_e0 = true /\ expr_total ex_doc_e1 = true.
-Proof. split; [exact (inv_wf ex_doc ex_doc_inv)|vm_compute; auto]. Qed.
+Example C06_example : DocWf ex_doc /\ DocWf dtd_doc /\ DocWf pi_doc /\
+  expr_total ex_doc_e0 = true /\ expr_total ex_doc_e1 = true /\ expr_total pi_doc_e3 = true.
+Proof.
+  split; [exact (inv_wf ex_doc ex_doc_inv)|]. split; [exact (proj1 dtd_doc_wf)|].
+  split; [exact (inv_wf pi_doc pi_doc_inv)|vm_compute; auto].
+Qed.
 
 Print Assumptions C06_eval_no_panic.
 Print Assumptions C06_query_no_panic.
